@@ -1,3 +1,299 @@
-/- C01: property theorems (stub — not built yet) -/
+import RSVerif.Lemmas.RdbRun
+import RSVerif.Properties.C11
+/-
+C01 — RDB parsing delivers every key exactly, whatever its encoding.
+
+Model:  RSVerif.Rdb (Model/RdbRead.lean) — pkg/rdb reader.go / loader.go / mix.go, tied to the Go code by ./check C01.
+Spec:   RSVerif.Spec.Rdb (Spec/Rdb.lean: abstract syntax, serializer `ser`, well-formedness `itemsOk`;
+        Spec/RdbExpected.lean: the records `expected` a file must be delivered as).
+Helper lemmas: Lemmas/Rdb{Basic,Lzf,Value,Hash,Loader,Fuel,Run}.lean.
+-/
+set_option linter.unusedSimpArgs false
 namespace RSVerif.Properties.C01
+open RSVerif RSVerif.Rdb RSVerif.Spec.Rdb RSVerif.Lemmas.Rdb
+
+theorem serStr_length_pos (s : RStr) : 1 ≤ (serStr s).length := by
+  cases s with
+  | raw f bs => cases f <;> simp [serStr, encLen]
+  | int8 b => simp [serStr]
+  | int16 b => simp [serStr]
+  | int32 b => simp [serStr]
+  | lzf cf uf ts => simp [serStr]
+
+theorem serPairs_length_ge (ps : List Pair) : ps.length ≤ (serPairs ps).length := by
+  apply flatten_length_ge serPair ps
+  intro p
+  have := serStr_length_pos p.1
+  simp [serPair]; omega
+
+/-- there are never more records than bytes (so the model's loop fuel `|file| + 1` always suffices) -/
+theorem expected_length_le (dump : UInt8 → Bytes → Bytes) (L : Nat) (items : List Item) :
+    ∀ db, (expected dump L db items).length ≤ (ser items).length := by
+  induction items with
+  | nil => intro db; simp [expected]
+  | cons it is ih =>
+    intro db
+    rw [ser_cons, List.length_append]
+    cases it with
+    | aux k v => simp only [expected]; have := ih db; omega
+    | resizeDb a b => simp only [expected]; have := ih db; omega
+    | selectDb n => simp only [expected]; have := ih n.val; omega
+    | moduleAux id ops => simp only [expected]; have := ih db; omega
+    | lua k s => simp only [expected, List.length_cons, serItem]; have := ih db; simp; omega
+    | key exp idle freq name v =>
+      simp only [expected, List.length_append]
+      have := ih db
+      have hk : (keyRecords dump L db exp idle freq name v).length ≤ (serItem (.key exp idle freq name v)).length := by
+        rw [serItem_key]
+        simp only [List.length_append, List.length_cons]
+        cases v with
+        | hash n fvs =>
+          simp only [keyRecords, List.length_cons, serValue, List.length_append]
+          have h1 := contRecords_length_le dump L db (logical name)
+            (takeChunk L (encLen ⟨fvs.length, n⟩).length fvs).2.length (takeChunk L (encLen ⟨fvs.length, n⟩).length fvs).2
+          have h2 : (takeChunk L (encLen ⟨fvs.length, n⟩).length fvs).2.length ≤ fvs.length := by
+            have := takeChunk_append L (encLen ⟨fvs.length, n⟩).length fvs
+            have e : ((takeChunk L (encLen ⟨fvs.length, n⟩).length fvs).1 ++ (takeChunk L (encLen ⟨fvs.length, n⟩).length fvs).2).length = fvs.length := by rw [this]
+            simp at e; omega
+          have h3 := serPairs_length_ge fvs
+          omega
+        | str t s => simp [keyRecords]; omega
+        | seq t n xs => simp [keyRecords]; omega
+        | zset n xs => simp [keyRecords]; omega
+        | zset2 n xs => simp [keyRecords]; omega
+        | stream => simp [keyRecords]; omega
+      omega
+
+/-- the header "REDIS" + 4 digits is accepted for every version the loader supports -/
+theorem header_ok (fv : Int) (ver : Nat) (h1 : 1 ≤ ver) (h9 : ver ≤ 9) (hfv : (ver : Int) ≤ fv) (rest : Bytes) :
+    header fv (hdr ver ++ rest) = .ok ((), rest) := by
+  have hv : ver = 1 ∨ ver = 2 ∨ ver = 3 ∨ ver = 4 ∨ ver = 5 ∨ ver = 6 ∨ ver = 7 ∨ ver = 8 ∨ ver = 9 := by omega
+  have key : ∀ v : Nat, (v = 1 ∨ v = 2 ∨ v = 3 ∨ v = 4 ∨ v = 5 ∨ v = 6 ∨ v = 7 ∨ v = 8 ∨ v = 9) →
+      readN 9 (hdr v ++ rest) = .ok (hdr v, rest) ∧ (hdr v).take 5 = magic ∧
+      parseVersion ((hdr v).drop 5) = some (v : Int) := by
+    intro v hv
+    refine ⟨readN_append' 9 _ _ (by simp [hdr]), ?_, ?_⟩
+    · rcases hv with rfl | rfl | rfl | rfl | rfl | rfl | rfl | rfl | rfl <;> decide
+    · rcases hv with rfl | rfl | rfl | rfl | rfl | rfl | rfl | rfl | rfl <;> decide
+  obtain ⟨k1, k2, k3⟩ := key ver hv
+  simp only [header, k1, k2, k3, ne_eq, not_true_eq_false, if_false]
+  have : ¬ ((ver : Int) ≤ 0 ∨ (ver : Int) > fv) := by omega
+  rw [if_neg this]
+
+/-- the model's payload wrapper is the specified DUMP payload -/
+theorem createValueDump_eq_dumpPayload :
+    Dump.createValueDump = dumpPayload Dump.toVersion16 := by
+  funext t body
+  simp [Dump.createValueDump, dumpPayload, C11.digest_eq_spec, Spec.Crc64.crc64]
+
+/-- **parse_exact** — for every chunk limit `L`, every version 1…9, every well-formed item list and ANY bytes
+    after the checksum: the loader delivers exactly the expected records, in file order, verifies the
+    footer, and leaves everything after the checksum unread. -/
+theorem parse_exact (pf : Bytes → Bool) (L : Nat) (fv : Int) (ver : Nat) (h1 : 1 ≤ ver) (h9 : ver ≤ 9)
+    (hfv : (ver : Int) ≤ fv) (items : List Item) (hok : itemsOk pf items) (tail : Bytes) :
+    Rdb.run pf true L fv
+      (hdr ver ++ ser items ++ [0xFF] ++ le64 (Spec.Crc64.crc64 (hdr ver ++ ser items ++ [0xFF])) ++ tail) =
+      (expected (dumpPayload Dump.toVersion16) L 0 items, .ok tail) := by
+  have hall : hdr ver ++ ser items ++ [0xFF] ++ le64 (Spec.Crc64.crc64 (hdr ver ++ ser items ++ [0xFF])) ++ tail
+      = hdr ver ++ (ser items ++ 0xFF :: (le64 (Spec.Crc64.crc64 (hdr ver ++ ser items ++ [0xFF])) ++ tail)) := by
+    simp
+  generalize hcov : hdr ver ++ ser items ++ [0xFF] = cov at *
+  rw [hall]
+  unfold Rdb.run
+  rw [header_ok fv ver h1 h9 hfv]
+  simp only []
+  rw [← hall]
+  have hb := expected_length_le Dump.createValueDump L items 0
+  rw [hall, runLoop_items pf L _ _ items hok {} _ [] rfl (by
+    simp only [List.length_append, List.length_cons]; omega)]
+  rw [← createValueDump_eq_dumpPayload]
+  simp only [List.reverse_nil, List.nil_append]
+  congr 1
+  -- the footer
+  rw [← hall]
+  unfold footerOf
+  rw [readN_append' 8 _ _ (Lemmas.Bytes.le64_length _)]
+  simp only []
+  have hcv : (cov ++ le64 (Spec.Crc64.crc64 cov) ++ tail).take
+      ((cov ++ le64 (Spec.Crc64.crc64 cov) ++ tail).length - (le64 (Spec.Crc64.crc64 cov) ++ tail).length) = cov := by
+    have := take_append_sub cov (le64 (Spec.Crc64.crc64 cov) ++ tail)
+    simpa [List.append_assoc] using this
+  rw [hcv, C11.footer_accepts]
+  simp
+
+/-! ### Corollaries about the delivered payloads -/
+
+/-- the pair-chunks of the continuation records -/
+def contChunks (L : Nat) : Nat → List Pair → List (List Pair)
+  | 0, _ => []
+  | f + 1, ps =>
+    match ps with
+    | [] => []
+    | _ => (takeChunk L 0 ps).1 :: contChunks L f (takeChunk L 0 ps).2
+
+theorem contChunks_flatten (L : Nat) (f : Nat) (ps : List Pair) (h : ps.length ≤ f) :
+    (contChunks L f ps).flatten = ps := by
+  induction f generalizing ps with
+  | zero => cases ps <;> simp_all [contChunks]
+  | succ f ih =>
+    cases ps with
+    | nil => simp [contChunks]
+    | cons p ps' =>
+      simp only [contChunks, List.flatten_cons]
+      have hlt := takeChunk_snd_length_lt L 0 p ps'
+      rw [ih _ (by simp at h hlt ⊢; omega), takeChunk_append]
+
+theorem contRecords_values (dump : UInt8 → Bytes → Bytes) (L db : Nat) (key : Bytes) (f : Nat) (ps : List Pair) :
+    (contRecords dump L db key f ps).map (fun e => (e.db, e.key, e.type, e.value, e.needReadLen, e.expireAt)) =
+      (contChunks L f ps).map (fun c => (db, key, (4 : UInt8), dump 4 (serPairs c), 0, 0)) := by
+  induction f generalizing ps with
+  | zero => simp [contRecords, contChunks]
+  | succ f ih =>
+    cases ps with
+    | nil => simp [contRecords, contChunks]
+    | cons p ps' => simp [contRecords, contChunks, ih]
+
+/-- **chunks_concat** — a hash is delivered as consecutive records (same db, key and type; only the first
+    carries the count prefix, the expiry and `needReadLen = 1`) whose pairs, concatenated, are exactly the hash. -/
+theorem chunks_concat (dump : UInt8 → Bytes → Bytes) (L db : Nat) (exp : Expiry) (idle : Option ELen)
+    (freq : Option UInt8) (name : RStr) (n : LenForm) (fvs : List Pair) :
+    ∃ (c : List Pair) (cs : List (List Pair)),
+      (c :: cs).flatten = fvs ∧
+      (keyRecords dump L db exp idle freq name (.hash n fvs)).map
+          (fun e => (e.db, e.key, e.type, e.value, e.needReadLen, e.expireAt)) =
+        (db, logical name, (4 : UInt8), dump 4 (encLen ⟨fvs.length, n⟩ ++ serPairs c), 1, expiryMs exp) ::
+          cs.map (fun c => (db, logical name, (4 : UInt8), dump 4 (serPairs c), 0, 0)) := by
+  refine ⟨(takeChunk L (encLen ⟨fvs.length, n⟩).length fvs).1,
+    contChunks L (takeChunk L (encLen ⟨fvs.length, n⟩).length fvs).2.length (takeChunk L (encLen ⟨fvs.length, n⟩).length fvs).2, ?_, ?_⟩
+  · rw [List.flatten_cons, contChunks_flatten L _ _ (Nat.le_refl _), takeChunk_append]
+  · simp [keyRecords, contRecords_values, Value.type]
+
+/-- a chunk ends as soon as the captured bytes exceed `L` — it overshoots only by its last pair -/
+theorem takeChunk_minimal (L : Nat) (ps : List Pair) :
+    ∀ b, b ≤ L → (takeChunk L b ps).2 ≠ [] →
+      L < b + (serPairs (takeChunk L b ps).1).length ∧
+      b + (serPairs (takeChunk L b ps).1.dropLast).length ≤ L := by
+  induction ps with
+  | nil => intro b _ h; simp [takeChunk] at h
+  | cons p rest ih =>
+    intro b hb h
+    unfold takeChunk at h ⊢
+    by_cases hc : b + (serPair p).length > L ∧ rest ≠ []
+    · rw [if_pos hc] at h ⊢
+      simp only [serPairs, List.map_cons, List.map_nil, List.flatten_cons, List.flatten_nil, List.append_nil,
+        List.dropLast_singleton, List.length_nil]
+      omega
+    · rw [if_neg hc] at h ⊢
+      simp only at h ⊢
+      have hrest : rest ≠ [] := by
+        intro hr; subst hr; simp [takeChunk] at h
+      have hb' : b + (serPair p).length ≤ L := by
+        by_cases hgt : b + (serPair p).length > L
+        · exact absurd ⟨hgt, hrest⟩ hc
+        · omega
+      obtain ⟨h1, h2⟩ := ih (b + (serPair p).length) hb' h
+      have hne : (takeChunk L (b + (serPair p).length) rest).1 ≠ [] := by
+        cases rest with
+        | nil => exact absurd rfl hrest
+        | cons q qs => exact takeChunk_fst_ne_nil L _ q qs
+      rw [List.dropLast_cons_of_ne_nil hne]
+      simp only [serPairs_cons, List.length_append]
+      omega
+
+/-- every record's payload is either a raw Lua script or a DUMP payload that verifies -/
+def recordOk (e : Entry) : Prop := e.type = 0xFA ∨ Dump.verifyDump e.value = .ok ()
+
+theorem contRecords_ok (L db : Nat) (key : Bytes) (f : Nat) (ps : List Pair) :
+    ∀ e ∈ contRecords (dumpPayload Dump.toVersion16) L db key f ps, recordOk e := by
+  induction f generalizing ps with
+  | zero => simp [contRecords]
+  | succ f ih =>
+    cases ps with
+    | nil => simp [contRecords]
+    | cons p ps' =>
+      intro e he
+      simp only [contRecords, List.mem_cons] at he
+      rcases he with rfl | he
+      · right; rw [← createValueDump_eq_dumpPayload]; exact C11.dump_verifies _ _
+      · exact ih _ e he
+
+/-- **payload_exact** (validity half) — every delivered value payload passes the strict DUMP checker -/
+theorem payload_verifies (L : Nat) (items : List Item) :
+    ∀ db, ∀ e ∈ expected (dumpPayload Dump.toVersion16) L db items, recordOk e := by
+  induction items with
+  | nil => intro db e he; simp [expected] at he
+  | cons it is ih =>
+    intro db e he
+    cases it with
+    | aux k v => exact ih db e (by simpa [expected] using he)
+    | resizeDb a b => exact ih db e (by simpa [expected] using he)
+    | selectDb n => exact ih n.val e (by simpa [expected] using he)
+    | moduleAux id ops => exact ih db e (by simpa [expected] using he)
+    | lua k s =>
+      simp only [expected, List.mem_cons] at he
+      rcases he with rfl | he
+      · left; rfl
+      · exact ih db e he
+    | key exp idle freq name v =>
+      simp only [expected, List.mem_append] at he
+      rcases he with he | he
+      · cases v with
+        | hash n fvs =>
+          simp only [keyRecords, List.mem_cons] at he
+          rcases he with rfl | he
+          · right; rw [← createValueDump_eq_dumpPayload]; exact C11.dump_verifies _ _
+          · exact contRecords_ok L db _ _ _ e he
+        | str t s => simp only [keyRecords, List.mem_singleton] at he; subst he; right
+                     rw [← createValueDump_eq_dumpPayload]; exact C11.dump_verifies _ _
+        | seq t n xs => simp only [keyRecords, List.mem_singleton] at he; subst he; right
+                        rw [← createValueDump_eq_dumpPayload]; exact C11.dump_verifies _ _
+        | zset n xs => simp only [keyRecords, List.mem_singleton] at he; subst he; right
+                       rw [← createValueDump_eq_dumpPayload]; exact C11.dump_verifies _ _
+        | zset2 n xs => simp only [keyRecords, List.mem_singleton] at he; subst he; right
+                        rw [← createValueDump_eq_dumpPayload]; exact C11.dump_verifies _ _
+        | stream => simp only [keyRecords, List.mem_singleton] at he; subst he; right
+                    rw [← createValueDump_eq_dumpPayload]; exact C11.dump_verifies _ _
+      · exact ih db e he
+
+/-! ### Non-vacuity: a concrete well-formed file with an LZF key, int-encoded strings, a chunked hash
+    (chunk limit 12), a Lua script, expiry/idle/freq, a wider-than-necessary length and a select-db -/
+
+def exItems : List Item :=
+  [ .aux (.raw .b6 [114, 118]) (.int8 [5]),
+    .selectDb ⟨3, .b14⟩,
+    .lua (.raw .b6 [108, 117, 97]) (.raw .b6 [114, 101, 116, 117, 114, 110]),
+    .key (.ms [1, 0, 0, 0, 0, 0, 0, 0]) (some ⟨7, .b6⟩) (some 9)
+      (.lzf .b6 .b6 [.lit [97, 98], .ref 2 6]) (.str 0 (.int16 [0x39, 0x30])),
+    .key .none none none (.raw .b6 [104])
+      (.hash .b6 [(.raw .b6 [1,2,3,4,5], .raw .b6 [6,7,8,9,10]), (.raw .b6 [1], .raw .b6 [2]),
+                  (.raw .b6 [3], .raw .b32 [4])]) ]
+
+example : itemsOk (fun _ => true) exItems := by
+  intro it hit
+  simp only [exItems, List.mem_cons, List.mem_nil_iff, or_false] at hit
+  rcases hit with rfl | rfl | rfl | rfl | rfl <;>
+    simp [itemOk, valueOk, strOk, cntOk, ELen.fits, toksOk, tokOk, expandTok, copyFrom, logical, luaText, expand,
+      encToks, encTok, decimal, decDigits, twos, leVal]
+
+/-- the example really is chunked (3 records for the hash) and parses as `parse_exact` says -/
+example : (expected (dumpPayload Dump.toVersion16) 12 0 exItems).length = 4 := by decide +kernel
+
+/-! ### D1 — the pinned module-aux reader (text-float reader for opcode 3) misparses; fixed in /repo -/
+
+def exModAux : List Item :=
+  [ .moduleAux ⟨1, .b6⟩ [.float [0, 0, 0, 0]],
+    .key .none none none (.raw .b6 [107]) (.str 0 (.raw .b6 [118])) ]
+
+def exModAuxFile : Bytes :=
+  hdr 9 ++ ser exModAux ++ [0xFF] ++ le64 (Spec.Crc64.crc64 (hdr 9 ++ ser exModAux ++ [0xFF]))
+
+/-- with the pinned reader (`floatRaw = false`) the well-formed file above is NOT parsed as expected,
+    with the repaired reader it is (instance of `parse_exact`). -/
+theorem counterexample_modaux_float :
+    Rdb.run (fun _ => true) false 16777216 9 exModAuxFile ≠
+      (expected (dumpPayload Dump.toVersion16) 16777216 0 exModAux, .ok []) ∧
+    Rdb.run (fun _ => true) true 16777216 9 exModAuxFile =
+      (expected (dumpPayload Dump.toVersion16) 16777216 0 exModAux, .ok []) := by
+  decide +kernel
+
 end RSVerif.Properties.C01
